@@ -167,6 +167,7 @@ func funcRange(v []data.Value) data.Value {
 	var indices data.List
 	var i = 0
 	for index := init; index < limit; index += increment {
+		verifWork()
 		indices = append(indices, data.Int(index))
 		i++
 	}
